@@ -469,6 +469,15 @@ def gen_cases(tier, seed):
             for fu in ("pwd+retr", "pasv+list", "reuse+retr"):
                 cases.append({"kind": "enum", "plan": {"verb": verb, "size": bs + 1, "connect": mode, "seed": seed, "followup": fu,
                                                        "server_kwargs": {"wait_future_timeout": None}, "dir_entries": 5 if verb in ("LIST", "MLSD") else 0}})
+    # speed limits: the ABOR finds the worker asleep behind a throttle (blocks of 8 KiB at 20-40 kB/s)
+    for verb, size, kw in ((("RETR", 40000, {"write_speed_limit": 20000}), ("STOR", 40000, {"read_speed_limit": 20000})) if tier == "quick" else
+                           (("RETR", 40000, {"write_speed_limit": 20000}), ("STOR", 40000, {"read_speed_limit": 20000}),
+                            ("RETR", 70000, {"write_speed_limit_per_connection": 40000}), ("APPE", 30000, {"read_speed_limit_per_connection": 15000}),
+                            ("LIST", 0, {"write_speed_limit": 1500}), ("MLSD", 0, {"write_speed_limit_per_connection": 3000}))):
+        for fu in (("pwd+retr",) if tier == "quick" else ("pwd+retr", "reuse+retr", "quit")):
+            cases.append({"kind": "enum", "stride": 2 if tier == "quick" else 1,
+                          "plan": {"verb": verb, "size": size, "connect": "before", "seed": seed, "followup": fu, "server_kwargs": kw,
+                                   "dir_entries": 30 if verb in ("LIST", "MLSD") else 0}})
     # executor-based back end: the ABOR finds the worker inside a file operation that runs in a thread
     for verb, size in (("RETR", 3 * bs + 17), ("STOR", 3 * bs + 17)) if tier == "quick" else (("RETR", 3 * bs + 17), ("STOR", 3 * bs + 17), ("RETR", 70000), ("APPE", bs + 1), ("LIST", 0)):
         cases.append({"kind": "enum", "stride": 3 if tier == "quick" else 1,
